@@ -1138,3 +1138,7 @@ v("d134-convert-records-requests-everything", "C10", VR, "            using=Orde
 
 v("d135-first-accepted-unordered", "C18", ER2, "    \"first\",\n    \"last\",\n    \"bfill\",\n    \"ffill\",\n}", "    \"last\",\n    \"bfill\",\n    \"ffill\",\n}")
 v("d135-ffill-accepted-unordered-c27", "C27", ER2, "    \"bfill\",\n    \"ffill\",\n}", "    \"bfill\",\n}")
+
+v("d136-pandas-and-by-truthiness", "C05", PB, "            \"and\": lambda *args: self._three_valued(args, is_and=True),", "            \"and\": numpy.logical_and,")
+
+v("d137-sqlite-builtin-round", "C05", SQ, "            \"round\": functools.partial(_wrap_numpy_fn, numpy.round),\n", "")
